@@ -94,3 +94,9 @@ func VerifMembershipKeys(m membership.Membership) (id string, index string) {
 	h := m.(*cbMembership)
 	return string(h.id), string(h.instanceAll)
 }
+
+// VerifObserverCatchup returns the catch-up mark of an observer (set after a server-requested rollback) and whether it is armed.
+func VerifObserverCatchup(o Observer) (uint64, bool) {
+	so := o.(*observer)
+	return so.catchupSeqNo, so.isCatchupNeed
+}
